@@ -16,7 +16,7 @@ RULE = ("twin execution with a transformation instead of a scale: for random inv
         "is_coplanar / is_collinear, equal cross ratios, polytope vertices = images of the vertices in order. The basis-point transform "
         "SubspaceTensor._matrix_transform is compared with the exact action model on every call. "
         "Non-trivial = t is not a multiple of the identity; distinct by (matrix, configuration) digest."
-        " Also 8x8 collections of transformations (batched inverse kernels) and transformations edited in place; complex (Gaussian integer) matrices on points, hyperplanes and their joins / meets; both sides of every commutation rule are evaluated inside the judgement (a side that raises while the other returns is a violation); pairs of 3D lines through a point in special position (coordinates adding up to zero, on an axis, at infinity); integer matrices with determinants of 10^3..10^5 on objects with decimal coordinates.")
+        " Also 8x8 collections of transformations (batched inverse kernels) and transformations edited in place; complex (Gaussian integer) matrices on points, hyperplanes and their joins / meets; both sides of every commutation rule are evaluated inside the judgement (a side that raises while the other returns is a violation); pairs of 3D lines through a point in special position (coordinates adding up to zero, on an axis, at infinity); integer matrices with determinants of 10^3..10^5 on objects with decimal coordinates; 3D lines in covariant form (covariant_tensor) under transformations.")
 SHARDS = (8, 16)
 REQUIRED = ["commute.join", "commute.meet", "incidence", "crossratio", "matrix_transform", "polytope"]
 ASSUMPTIONS = ["exact inverse for integer matrices; numpy trusted for floats"]
